@@ -18,3 +18,60 @@ theorem keysNonneg_unitEnv (s : RegState) : KeysNonneg s.unitEnv := by
     decide
 
 end QM
+
+namespace QM
+
+/-- decidable, bounded forms of the two environment hypotheses of the term
+theorems; beyond `env.atoms.length` every element is a base element without
+scale, so the bounded check decides the unbounded statement -/
+def baseNoConvUpTo (env : Env) (n : Nat) : Bool :=
+  (List.range n).all fun x => (List.range n).all fun y =>
+    !((env.info x).isBase && (env.info y).isBase && x != y) || (getFactor env y x).isNone
+
+def defsBaseOnlyUpTo (env : Env) (n : Nat) : Bool :=
+  (List.range n).all fun a =>
+    (env.info a).isBase || (atomsOf (env.info a).normDef).all fun b => (env.info b).isBase
+
+theorem info_default (env : Env) (a : Nat) (h : env.atoms.length ≤ a) :
+    env.info a = { key := 1, group := 0, scale := none, isBase := true, normDef := [] } := by
+  unfold Env.info
+  rw [List.getD_eq_getElem?_getD, List.getElem?_eq_none h]; rfl
+
+theorem baseNoConv_of_check (env : Env) (h : baseNoConvUpTo env env.atoms.length = true) :
+    BaseNoConv env := by
+  intro x y hx hy hne
+  by_cases hxl : x < env.atoms.length
+  · by_cases hyl : y < env.atoms.length
+    · unfold baseNoConvUpTo at h
+      rw [List.all_eq_true] at h
+      have h1 := h x (List.mem_range.mpr hxl)
+      rw [List.all_eq_true] at h1
+      have h2 := h1 y (List.mem_range.mpr hyl)
+      simp only [hx, hy, Bool.true_and, Bool.or_eq_true, Bool.not_eq_true', bne_eq_false_iff_eq,
+        Option.isNone_iff_eq_none] at h2
+      rcases h2 with h2 | h2
+      · exact absurd h2 hne
+      · exact h2
+    · unfold getFactor
+      rw [info_default env y (not_lt.mp hyl)]
+      simp only
+      split <;> rfl
+  · unfold getFactor
+    rw [info_default env x (not_lt.mp hxl)]
+    simp only
+    split
+    · split <;> first | rfl | (rename_i h1 h2; simp at h2)
+    · rfl
+
+theorem defsBaseOnly_of_check (env : Env) (h : defsBaseOnlyUpTo env env.atoms.length = true) :
+    DefsBaseOnly env := by
+  intro a hb c hc
+  by_cases hal : a < env.atoms.length
+  · unfold defsBaseOnlyUpTo at h
+    rw [List.all_eq_true] at h
+    have h1 := h a (List.mem_range.mpr hal)
+    simp only [hb, Bool.false_or, List.all_eq_true] at h1
+    exact h1 c hc
+  · rw [info_default env a (not_lt.mp hal)] at hb; simp at hb
+
+end QM
